@@ -2,8 +2,8 @@
 """markdown table of the seeded changes and the checks that catch them (from seeded/*/meta.json)"""
 import glob, json, os
 V = os.path.dirname(os.path.dirname(os.path.abspath(__file__)))
-print('| seeded change | property | what it changes (file) | what it needs to show | caught by (quick tier unless noted) | not caught by |')
-print('|---|---|---|---|---|---|')
+print('| seeded change | property | what it changes (file) | what it needs to show | caught by (quick tier unless noted) | not caught by | when first evaluated |')
+print('|---|---|---|---|---|---|---|')
 for f in sorted(glob.glob(V + '/seeded/*/meta.json')):
     d = json.load(open(f))
     ev = d.get('evaluation', {})
@@ -13,5 +13,11 @@ for f in sorted(glob.glob(V + '/seeded/*/meta.json')):
     what = d.get('what', '').split('. ')[0][:160]
     needs = d.get('needs', '').split('. ')[0][:160]
     files = ', '.join(os.path.basename(x) for x in d.get('files', []))[:60]
-    print('| %s | %s | %s (%s) | %s | %s | %s |' % (os.path.basename(os.path.dirname(f)), d.get('property'), what, files, needs,
-                                              ', '.join(hit) or '-', ', '.join(miss) or '-'))
+    first = ''
+    ee = d.get('earlier_evaluations') or []
+    if ee:
+        c0 = ee[0].get('checks', {})
+        first = ', '.join('%s: %s' % (p, 'caught' if (c.get('exit') == 1 and (c.get('violations') or 0)) else 'exit %s' % c.get('exit'))
+                          for p, c in sorted(c0.items()))
+    print('| %s | %s | %s (%s) | %s | %s | %s | %s |' % (os.path.basename(os.path.dirname(f)), d.get('property'), what, files, needs,
+                                                   ', '.join(hit) or '-', ', '.join(miss) or '-', first or 'same'))
